@@ -732,7 +732,7 @@ var recJournal = ev.New("C15", "spend-journal",
 		"oracle = model encoder (items in reverse spending order, reserved byte iff height != 0): serializeSpendJournalEntry == model bytes, spentTxOutSerializeSize == item length, "+
 		"deserialize(bytes, txs) == the list, re-serialization byte-stable, the same bytes with a different tx shape of equal input count decode identically, "+
 		"empty serialization with inputs is an error, truncations at documented checkpoints are errors; non-trivial = at least 2 items or a legacy/special item; distinct by list",
-	"no-inputs", "1-item", "2-5-items", "6+-items", "legacy-height-0", "tx-without-inputs", "truncations")
+	"no-inputs", "1-item", "2-5-items", "6+-items", "legacy-height-0", "legacy-wide-reserved-field", "tx-without-inputs", "truncations")
 
 func txsOfShape(shape []int) []*wire.MsgTx {
 	var txs []*wire.MsgTx
@@ -863,6 +863,40 @@ func TestSpendJournal(t *testing.T) {
 		}
 		if count == 0 {
 			return
+		}
+		// entries written by releases that kept the spending-side transaction version in the
+		// (now reserved) field after the header code of every item with a non-zero height: the
+		// field is a variable-length quantity of any width and must be skipped, not assumed 1 byte
+		{
+			var legacyBytes []byte
+			wide := false
+			for i := count - 1; i >= 0; i-- {
+				item, _ := fm.EncodeStxo(os[i])
+				if os[i].Height == 0 {
+					legacyBytes = append(legacyBytes, item...)
+					continue
+				}
+				_, hn, _ := fm.ReadVLQBig(item)
+				v := rapid.SampledFrom([]uint64{0, 1, 2, 127, 128, 129, 16511, 16512, 2113663, 2113664, 0x7fffffff, 0xffffffff}).Draw(t, "legacyTxVersion")
+				wide = wide || v >= 128
+				legacyBytes = append(legacyBytes, item[:hn]...)
+				legacyBytes = append(legacyBytes, fm.PutVLQ(v)...)
+				legacyBytes = append(legacyBytes, item[hn+1:]...)
+			}
+			if wide {
+				recJournal.Count("legacy-wide-reserved-field", 1)
+			}
+			var back []blockchain.SpentTxOut
+			var derr error
+			if p := catch(func() { back, derr = blockchain.VerifDeserializeSpendJournalEntry(legacyBytes, txsOfShape(shape)) }); p != "" {
+				t.Fatalf("deserializeSpendJournalEntry(entry with legacy transaction-version fields %s, shape %v): %s", shortHex(legacyBytes), shape, p)
+			}
+			if derr != nil {
+				t.Fatalf("entry whose reserved fields carry legacy transaction versions is not readable: %v\n%s", derr, shortHex(legacyBytes))
+			}
+			if err := sameStxos(back, os); err != nil {
+				t.Fatalf("entry whose reserved fields carry legacy transaction versions decodes to different values: %v\n%s", err, shortHex(legacyBytes))
+			}
 		}
 		// the decoder only needs the number of inputs, not their distribution
 		if err := checkJournal(os, []int{0, count}, want); err != nil {
